@@ -31,6 +31,9 @@ func addSat(a, b int64) int64 {
 	return a + b
 }
 
+// boundsCallers: static call sites per function (set by the pool rule), for counts that arrive as parameters.
+var boundsCallers map[*ssa.Function][]ssa.CallInstruction
+
 func boundsOf(v ssa.Value, depth int, seen map[ssa.Value]bool) ival {
 	top := ival{negInf, posInf}
 	if depth > 12 || seen[v] {
@@ -57,6 +60,37 @@ func boundsOf(v ssa.Value, depth int, seen map[ssa.Value]bool) ival {
 		if b, ok := x.Common().Value.(*ssa.Builtin); ok && (b.Name() == "len" || b.Name() == "cap") {
 			return ival{0, posInf}
 		}
+	case *ssa.Parameter:
+		// a count handed to a helper: the join over the helper's static call sites (none known: unbounded)
+		fn := x.Parent()
+		if boundsCallers == nil || fn == nil {
+			return top
+		}
+		idx := -1
+		for i, prm := range fn.Params {
+			if prm == x {
+				idx = i
+			}
+		}
+		sites := boundsCallers[fn]
+		if idx < 0 || len(sites) == 0 {
+			return top
+		}
+		out := ival{posInf, negInf}
+		for _, site := range sites {
+			args := site.Common().Args
+			if idx >= len(args) {
+				return top
+			}
+			b := boundsOf(args[idx], depth+1, seen)
+			if b.lo < out.lo {
+				out.lo = b.lo
+			}
+			if b.hi > out.hi {
+				out.hi = b.hi
+			}
+		}
+		return out
 	case *ssa.Convert:
 		return boundsOf(x.X, depth+1, seen)
 	case *ssa.ChangeType:
